@@ -38,7 +38,7 @@ def consts(thorough):
         exits = {e for e in exits if e % 2 == 1 and e < 3000}
         tos = {0, 1, 7, 201, 2001}
     return {"Kinds": {"child", "nonchild", "never"}, "Exits": exits | {0, NEVER},
-            "Timeouts": tos | {NONE, NEG}, "Statuses": {"exit0", "exit7", "sigkill", "sigterm", "sigrt35"},
+            "Timeouts": tos | {NONE, NEG}, "Statuses": {"exit0", "exit7", "sigkill", "sigterm", "sigrt35", "sigsegvcore"},
             "Cap": CAP, "MaxT": 6000}
 
 
@@ -61,6 +61,10 @@ def status_words():
                 os._exit(99)
             _, st = os.waitpid(pid, 0)
             _STATUS[name] = st
+        # a core file cannot be had in the sandbox: the word is the one of a SIGSEGV death with the
+        # kernel's "core dumped" flag set (include/linux/... : status = signr | 0x80)
+        _STATUS["sigsegvcore"] = signal.SIGSEGV | 0x80
+        assert os.WIFSIGNALED(_STATUS["sigsegvcore"]) and os.WTERMSIG(_STATUS["sigsegvcore"]) == signal.SIGSEGV
     return _STATUS
 
 
@@ -71,6 +75,10 @@ def setup_proc(w, pid, kind, exit_at, status, t0):
         return
     p = w.spawn(pid, comm=b"child", ppid=w.caller_pid if kind == "child" else 1, start=5)
     p.child = kind == "child"
+    if kind != "child" and pid % 2:
+        # somebody else's process: the caller may not signal it (EPERM), which says that it exists
+        import errno as _e
+        p.deny["kill"] = _e.EPERM
 
     def end():
         if pid in w.procs:
@@ -170,7 +178,7 @@ def run_wait(cases):
                 negafter = type(ex).__name__
         badkill = [(kp, ks) for (kp, ks, _) in w.kill_log if kp <= 0 or ks != 0]
         del w.kill_log[:]
-        codes = {"exit0": 0, "exit7": 7, "sigkill": -9, "sigterm": -15, "sigrt35": -35}
+        codes = {"exit0": 0, "exit7": 7, "sigkill": -9, "sigterm": -15, "sigrt35": -35, "sigsegvcore": -11}
         rec = {"kind": cfg["kind"],
                "exitAt": int(round(exited_at[0] / H * U)) if exited_at else (-1 if cfg["exitAt"] == NEVER else cfg["exitAt"] * U),
                "timeout": -1 if to == NONE else (-2 if to == NEG else to * U),
@@ -197,7 +205,7 @@ def run_wait_procs(job):
     w, ps = template()
     rnd = random.Random(seed)
     sw = status_words()
-    codes = {"exit0": 0, "exit7": 7, "sigkill": -9, "sigterm": -15, "sigrt35": -35}
+    codes = {"exit0": 0, "exit7": 7, "sigkill": -9, "sigterm": -15, "sigrt35": -35, "sigsegvcore": -11}
     lines = []
     for r in range(n):
         for p in list(w.procs):
@@ -249,7 +257,10 @@ def check_wait_procs(ctx, n):
     lines = []
     for st, val in res:
         if st != "ok":
-            raise core.Machinery("wait_procs driver failed: %s" % (val,))
+            # (a tree that breaks wait() may also hang this driver: a machinery failure only if
+            # nothing else was found)
+            core.vacuity("wait_procs driver failed: %s" % (val,))
+            continue
         lines.extend(val)
     for l in [x for x in lines if "error" in x][:3]:
         ctx.disagree("wait_procs:exception", "wait_procs raised %s (%r)" % (l["error"], l), l)
